@@ -247,3 +247,50 @@ def point_order_contract(ctx, rule):
                 nn = Q.arg(ctx, pts[2][0], "n")
                 ok = True if nn in (const(2), ("call", ("glob", "builtins.len"), (("param", "coordinates"),), (), 0)) or (nn is not None and canon(nn) == canon(("call", ("glob", "builtins.len"), (("param", "coordinates"),), (), 0))) else None
         ctx.check(rule, "%s|points-in-n_1d_arrays-order|%s" % (qn, Q.tags(p.conds)), ok, "the tree indexes the points as rows of transpose(n_1d_arrays(coordinates, 2))", fn=qn)
+
+
+PERMUTATION_SOURCES = {"numpy.argsort", "numpy.lexsort", "numpy.random.permutation", ".argsort", ".permutation"}
+
+
+def _is_permutation(t):
+    t = Q.unwrap(t)
+    while t[0] == "sub" and t[2][0] == "slice":
+        t = Q.unwrap(t[1])
+    return t[0] == "call" and callee(t) in PERMUTATION_SOURCES
+
+
+def _order_of(seq):
+    """the iterable whose order a sequence built element by element follows: [f(x) for x in P] -> P, [f(y) for y in [g(x) for x in P]] -> P"""
+    seq = Q.unseq(seq)
+    seen = 0
+    while seq[0] == "comp" and seen < 4:
+        it = Q.unseq(seq[3])
+        if it[0] != "comp":
+            return it
+        seq, seen = it, seen + 1
+    return None
+
+
+def permutation_gather(ctx, rule="RG"):
+    """A sequence L built in the order of a permutation P (L[k] belongs to item P[k]) is put back into the original order with the
+    INVERSE of P (argsort(P), or a scatter out[P[k]] = L[k]).  Gathering it with P itself - [L[i] for i in P] - returns, at position
+    j, the entry that belongs to P[P[j]]: right only for permutations that are their own inverse (a classic argsort slip that tests
+    with sorted, reversed or two-element inputs cannot see)."""
+    for qn in sorted(q for q in ctx.consulted if q in ctx.pkg.functions):
+        fa = ctx.an.fa(qn)
+        if not fa.ok:
+            continue
+        found = None
+        for fx in [fa] + list(fa.nested.values()):
+            for p in fx.paths:
+                terms = [p.value] if isinstance(p.value, tuple) else []
+                terms += [d for e in p.events for d in e.data if isinstance(d, tuple)]
+                for t in terms:
+                    for x in walk(t):
+                        if isinstance(x, tuple) and x and x[0] == "comp" and x[2][0] == "sub" and x[2][2] == ("elem", x[3], x[4]) and _is_permutation(x[3]):
+                            src = _order_of(x[2][1])
+                            if src is not None and canon(src) == canon(Q.unseq(x[3])):
+                                found = found or (show(x)[:120], p.line)
+        if found is not None:
+            ctx.add(rule, qn + "|results-restored-with-the-inverse-permutation", "VIOLATED",
+                    "a sequence computed in the order of a sort permutation is gathered with the permutation itself instead of its inverse: %s" % found[0], fn=qn, line=found[1])
